@@ -296,24 +296,32 @@ def check(ctx, rep):
     if lg is None:
         rep.fail("R20d", "GopherExceptions.log", detail="log routine not found")
     else:
-        logcalls = [c for c, t in eff.calls_of(lg) if (dotted(c.func) or "").endswith("logger.log")]
-        texts = []
-        for c in logcalls:
-            names = {n.id for a in c.args for n in ast.walk(a) if isinstance(n, ast.Name)}
-            texts.extend(norm(a) for a in c.args)
-            for n in ast.walk(lg.node):
-                if isinstance(n, ast.Assign) and any(isinstance(t, ast.Name) and t.id in names for t in n.targets):
-                    texts.append(norm(n.value))
-        blob = " | ".join(texts)
         import re as _re
 
+        from ..structure import resolve_value
+
         p_exc, p_proto = (lg.params + ["exception", "protocol"])[0], (lg.params + ["exception", "protocol"])[1]
-        for what, pat in (("client address", r"client_address\[0\]"),
-                          ("protocol class", rf"(type\({p_proto}\)|{p_proto}\.__class__)\.__(qual)?name__"),
-                          ("exception class", rf"(type\({p_exc}\)|{p_exc}\.__class__)\.__(qual)?name__")):
-            ok = _re.search(pat, blob) is not None
+        pats = {"client address": r"client_address\[0\]",
+                "protocol class": rf"(type\({p_proto}\)|{p_proto}\.__class__)\.__(qual)?name__",
+                "exception class": rf"(type\({p_exc}\)|{p_exc}\.__class__)\.__(qual)?name__"}
+        missing = {k: [] for k in pats}
+        n_logged = 0
+        for pth in Walker(prog, ctx.resolver).run(lg):
+            with_proto = any(e.kind == "test" and norm(e.node) == p_proto and e.extra is True for e in pth.events) or \
+                not any(e.kind == "test" and norm(e.node) == p_proto for e in pth.events)
+            for e in pth.events:
+                if e.kind == "call" and (dotted(e.node.func) or "").endswith("logger.log") and e.node.args:
+                    n_logged += 1
+                    blob = norm(resolve_value(e.node.args[0], lg, None, e.defs or {}, prog, ctx.resolver))
+                    for what, pat in pats.items():
+                        if what != "exception class" and not with_proto:
+                            continue  # no protocol object: nothing to say about the client or the protocol
+                        if _re.search(pat, blob) is None:
+                            missing[what].append(blob[:80])
+        for what, pat in pats.items():
+            ok = n_logged > 0 and not missing[what]
             rep.add("R20d", f"log line carries the {what}", ok, ctx.where(lg),
-                    "" if ok else f"nothing matching `{pat}` reaches the logged string", key=f"R20d|{what}")
+                    "" if ok else f"nothing matching `{pat}` reaches the logged string ({(missing[what] or ['no log call'])[0]})", key=f"R20d|{what}")
         # ... and is written whenever log() is called: no path returns without the log write, whatever was logged before
         silent = []
         for p in Walker(prog, ctx.resolver).run(lg):
